@@ -199,6 +199,12 @@ def gen_expr(d: D, avail: List[Tuple[str, str]], c, depth: Optional[int] = None)
 def gen_leaf(d: D, avail, c) -> List[Any]:
     if not avail:
         return [d.weighted([(3, "y"), (1, "n")])]
+    if c.get("deprioritized"):
+        prefer = [a for a in avail if a[0] not in c["deprioritized"]]
+        if d.chance(c.get("p_prefer", 70)):
+            if not prefer:
+                return ["y"]
+            avail = prefer
     bools = [a for a in avail if a[1] == "bool"]
     kind = d.weighted([(60, "sym"), (34, "rel"), (4, "y"), (2, "n")])
     if kind in ("y", "n"):
@@ -290,7 +296,8 @@ class _Builder:
                 if e.get("k") == "config" and e.get("name") == after:
                     body.insert(i + 1, entry)
                     return
-        body.insert(self.d.int(0, len(body)), entry)
+        lo = getattr(self, "n_preseed", 0) if body is self.entries else 0
+        body.insert(self.d.int(min(lo, len(body)), len(body)), entry)
 
     def cond(self, pct: int) -> Optional[list]:
         if self.d.chance(pct):
@@ -574,9 +581,20 @@ class _Builder:
         body, _ = self.pick_container()
         self.insert(body, ch)
 
+    def preseed(self, entries: List[dict]) -> None:
+        """Fixed entries placed at the top of the root file; their options get the lowest ranks, so everything generated
+        afterwards may refer to them (used for the IDF_TARGET machinery of C20)."""
+        for e in entries:
+            self.entries.append(e)
+            if e["k"] == "config":
+                self.types[e["name"]] = e["type"]
+                self.order.append(e["name"])
+                self.conf[e["name"]] = e
+        self.n_preseed = len(entries)
+
     def build(self) -> dict:
         d, c = self.d, self.c
-        n = d.int(c["min_syms"], c["max_syms"])
+        n = d.int(c["min_syms"], c["max_syms"]) + len(self.order)
         while len(self.order) < n:
             self.maybe_open_containers()
             if d.chance(c["p_choice"]) and n - len(self.order) >= 2:
